@@ -8,7 +8,9 @@ BOUNDS = {"all": "pack/unpack/p8..p64/u8..u64/swap*: value symbolic over [-2^130
                  "bit-length form, every endianness spelling; hexdump/dumpstruct: data lengths 0..40 and palette boundaries enumerated, "
                  "<= 3 symbolic data bytes per dump at engine-chosen positions (the printable-column test forks per symbolic byte), "
                  "palette run lengths engine-chosen from {0,1,2,15,16,17}"}
-ENDIANS = {"little": False, "big": True, "network": True, "<": False, ">": True, "!": True}
+import sys as _sys
+ENDIANS = {"little": False, "big": True, "network": True, "<": False, ">": True, "!": True,
+           "@": _sys.byteorder == "big", "=": _sys.byteorder == "big"}
 BIG = 1 << 130
 
 
@@ -247,6 +249,15 @@ def make_dumpstruct(case):
             ctx.check("dumpstruct lists the current value of a modified field", f"- {f0._name}: 0x5a" in listing, str(listing[:3]))
             ctx.check("dumpstruct hex-dumps the current bytes of a modified structure",
                       strip(utils.dumpstruct(obj2, output="string", color=False)).startswith("\n" + utils.hexdump(obj2.dumps(), output="string") + "\n"))
+        # a field added to the class later is listed as well
+        cs3 = cstruct()
+        cs3.load(case["text"], compiled=False)
+        utils.dumpstruct(cs3.test(raw), output="string", color=False)
+        cs3.test.add_field("zz_added", cs3.uint8)
+        grown = cs3.test(raw + b"\x07")
+        names3 = [ln[2:].split(":")[0] for ln in strip(utils.dumpstruct(grown, output="string", color=False)).split("\n\n", 2)[-1].split("\n")
+                  if ln.startswith("- ")]
+        ctx.check("dumpstruct lists a field added after an earlier dump", names3 == [f._name for f in cs3.test.__fields__], str(names3))
         # parse form: dumpstruct(type, data)
         out2 = strip(utils.dumpstruct(cs.test, raw, output="string", color=False))
         ctx.check("dumpstruct(type, data) dumps the given bytes", out2.startswith("\n" + utils.hexdump(raw, output="string") + "\n"))
@@ -268,7 +279,7 @@ def cases(tier, seed):  # noqa: F811
                 if palette and len(positions) > (1 if tier == "quick" else 2):
                     continue
                 yield {"label": f"hexdump n={n} sym@{positions} palette={palette}", "n": n, "positions": positions,
-                       "offset": [0, 0x1FF0, 16][k % 3], "prefix": ["", "> ", "{0}} {{x: "][(k + n) % 3], "fill": 0x20 + 13 * n, "palette": palette,
+                       "offset": [0, 0x1FF0, 16, 0xFFFFFFF0, 1 << 40][(k + n) % 5], "prefix": ["", "> ", "{0}} {{x: "][(k + n) % 3], "fill": 0x20 + 13 * n, "palette": palette,
                        "make": "make_hexdump"}
     for text, n in DUMP_DEFS:
         for fill in (1, 0x41):
